@@ -160,18 +160,16 @@ theorem mapLazy_ok_of_forall {α β : Type} {f : α → Except Err β} : ∀ {xs
 theorem flattenP_ok {α : Type} {inner : List (List α)} {t : Bool} {ys : List α}
     (h : flattenP inner t = .ok ys) : ys = inner.flatten := by
   unfold flattenP at h
-  split at h
-  · cases h
-  · simp only [Except.ok.injEq] at h
-    exact h.symm
+  simp only [Except.ok.injEq] at h
+  exact h.symm
 
 theorem flattenP_error {α : Type} {inner : List (List α)} {t : Bool} {e : Err}
-    (h : flattenP inner t = .error e) : e = .panicFlatten := by
+    (h : flattenP inner t = .error e) : False := by
   unfold flattenP at h
-  split at h
-  · simp only [Except.error.injEq] at h
-    exact h.symm
-  · cases h
+  cases h
+
+/-- since fix 71f89c5 `flatten_punctuated` is total -/
+theorem flattenP_total {α : Type} (inner : List (List α)) (t : Bool) : flattenP inner t = .ok inner.flatten := rfl
 
 /-! ## zipIdx -/
 
